@@ -5,3 +5,4 @@ import Ymq.Props.C04Relations
 #print axioms Ymq.C04.sched_bounded_work
 #print axioms Ymq.C04.sched_progress
 #print axioms Ymq.C04.sched_relations_valid
+#print axioms Ymq.C04.sched_no_panic
